@@ -67,6 +67,9 @@ RULES = [
      "R4: call site of the renamed conversion operator (String::fromHex)"),
     ("src/String.cpp", "literal", "    char* out = (char*)result;\n", "    char* out = result.nvMutable();\n", 1,
      "R4: call site of the renamed conversion operator (String::fromBase64)"),
+]
+# applied only with NV_ARRAY=1 (the parked Array units, see units/_array_units.py): no registered unit reads Array.hpp's destructor
+OPTIONAL_RULES = [
     ("include/nstd/Array.hpp", "literal", "  ~Array()\n  {\n    if(_begin.item)", "  ~Array() { nvDestroy(); }\n  void nvDestroy()\n  {\n    if(_begin.item)", 1,
      "R12: goto-cc cannot use the class template parameter inside a destructor of the template (\"template parameter without instance\"); "
      "the destructor body is moved verbatim into a member function that the destructor calls"),
@@ -244,7 +247,7 @@ def apply(tree):
 
 def _apply_rules(tree):
     fired = []
-    for (f, kind, pat, rep, count, why) in RULES:
+    for (f, kind, pat, rep, count, why) in RULES + (OPTIONAL_RULES if os.environ.get("NV_ARRAY") else []):
         p = os.path.join(tree, f)
         s = open(p).read()
         if kind == "literal":
